@@ -15,7 +15,7 @@ def cvc5_check(constraints, timeout_ms=10000):
         text = s.to_smt2()
     except Exception:
         return "unknown"
-    text = "(set-logic ALL)\n" + text
+    text = "(set-logic ALL)\n" + text.replace("seq.nth_i", "seq.nth").replace("seq.nth_u", "seq.nth")
     fd, path = tempfile.mkstemp(suffix=".smt2", dir=os.environ.get("VERIF_SCRATCH", "/var/tmp"))
     try:
         with os.fdopen(fd, "w") as f:
